@@ -85,7 +85,7 @@ class C07(InterpProp):
     cmp_err = None
     cmp_time = False
     cmp_outcome = False
-    quick_cases = 250
+    quick_cases = 500
     thorough_cases = 8000
     n_ops = 30
     with_contracts = 0.3
